@@ -197,18 +197,6 @@ def spec_mean(IM, ax, mask):
     return S
 
 
-def fourier_index0(IM, ax):
-    """What the recorded finding C06-fourier says the Fourier branch computes:
-    mirror about index 0 (periodically) instead of about the image centre."""
-    s = set(ax) if isinstance(ax, (list, tuple)) else {ax}
-    X = np.array(IM, dtype=float)
-    if 0 in s:
-        X = (X + np.roll(X[:, ::-1], 1, axis=1)) / 2
-    if 1 in s:
-        X = (X + np.roll(X[::-1, :], 1, axis=0)) / 2
-    return X
-
-
 SNIPPET = '''
 import json, warnings, sys
 import numpy as np
@@ -312,8 +300,7 @@ def search(ctx, rng, budget):
                         # idempotent
                         S2 = sym(S, ax, mask, meth)
                         if not close(S2, S):
-                            key = 'C06:fourier-mirrors-about-index-0' if (meth == 'fourier' and fourier_matches(IM, ax, mask, S)) else None
-                            hits.append(mkhit('idem', IM, ax, mask, meth, 'applying twice changes the result', key=key))
+                            hits.append(mkhit('idem', IM, ax, mask, meth, 'applying twice changes the result'))
                         # fixed points
                         X = IM
                         if 0 in s:
@@ -322,26 +309,14 @@ def search(ctx, rng, budget):
                             X = (X + X[::-1]) / 2
                         SX = sym(X, ax, mask, meth)
                         if not close(SX, X):
-                            key = 'C06:fourier-mirrors-about-index-0' if (meth == 'fourier' and fourier_matches(X, ax, mask, SX)) else None
-                            hits.append(mkhit('fix', X, ax, mask, meth, 'an already symmetric image is changed', key=key))
+                            hits.append(mkhit('fix', X, ax, mask, meth, 'an already symmetric image is changed'))
     return hits, n_eval, len(distinct)
-
-
-def fourier_matches(IM, ax, mask, S):
-    """True when S is what the recorded Fourier behaviour (mirror about index
-    0) predicts for IM: the hit is then the known finding and nothing new."""
-    from abel.tools.symmetry import get_image_quadrants as get, put_image_quadrants as put
-    F = fourier_index0(IM, ax)
-    Q = get(F, symmetry_axis=None, use_quadrants=(True,) * 4)
-    Q = [q * float(u) for q, u in zip(Q, mask)]
-    E = put(Q, IM.shape, ax)
-    return E.shape == S.shape and np.allclose(E, S, rtol=1e-9, atol=1e-9)
 
 
 def run(ctx):
     rng = np.random.default_rng(ctx.seed)
     # 1. theorems
-    pr = vlib.coq_props('C06')
+    pr = vlib.coq_props('C06', extra_targets=['model/SymmetryQ.vo'])
     ctx.cov.update(obligations=len(pr['theorems']), discharged=pr['discharged'],
                    theorems=pr['theorems'], axioms=pr['axioms'],
                    checker_cmd='make -C /verif/coq props/C06.vo (coqc 8.16.1, full .vo build) + Print Assumptions',
@@ -384,5 +359,5 @@ def run(ctx):
                           % (len(bad), len(cases)), detail)
     ctx.assumptions += [
         'theorems are about the R instance of the polymorphic model coq/model/Symmetry.v; the correspondence runs its Q instance',
-        'Fourier branch modelled as g[j] = (f[j] + f[(-j) mod m])/2 (DFT identity, validated by correspondence, not proved)',
+        'Fourier branch (real_components) modelled as g[j] = (f[j] + f[m-1-j])/2 (DFT shift identity, validated by correspondence, not proved)',
     ]
